@@ -1828,8 +1828,248 @@ Section Sim.
       exists kwm. split; [|split; reflexivity].
       unfold owner_step. rewrite (is_spec_none pc D). simpl. destruct s; reflexivity.
   Qed.
+  (* ---- a hand-written parent constructor *)
+  Lemma has_assoc_rel (X : kwargs) (pkw : list (aid * aval)) :
+    (forall a, assoc a X = option_map Some (assoc a pkw)) -> forall a, has a X = has a pkw.
+  Proof. intros R a. unfold has. rewrite R. destruct (assoc a pkw); reflexivity. Qed.
+
+  Lemma forallb_same_names (f : aid -> bool) (X : kwargs) (pkw : list (aid * aval)) :
+    (forall a, has a X = has a pkw) ->
+    forallb (fun p => f (fst p)) X = forallb (fun p => f (fst p)) pkw.
+  Proof.
+    intro H.
+    assert (D1 : forallb (fun p : aid * option aval => f (fst p)) X = true ->
+                 forallb (fun p : aid * aval => f (fst p)) pkw = true).
+    { intro A. apply forallb_forall. intros [a v] Hp. simpl.
+      assert (Ha : has a pkw = true) by (apply has_In; apply in_map_iff; exists (a, v); split; [reflexivity | exact Hp]).
+      rewrite <- H in Ha. apply has_In in Ha. apply in_map_iff in Ha. destruct Ha as [[a' v'] [E Hq]].
+      simpl in E. subst a'. rewrite forallb_forall in A. apply (A (a, v') Hq). }
+    assert (D2 : forallb (fun p : aid * aval => f (fst p)) pkw = true ->
+                 forallb (fun p : aid * option aval => f (fst p)) X = true).
+    { intro A. apply forallb_forall. intros [a v] Hp. simpl.
+      assert (Ha : has a X = true) by (apply has_In; apply in_map_iff; exists (a, v); split; [reflexivity | exact Hp]).
+      rewrite H in Ha. apply has_In in Ha. apply in_map_iff in Ha. destruct Ha as [[a' v'] [E Hq]].
+      simpl in E. subst a'. rewrite forallb_forall in A. apply (A (a, v') Hq). }
+    destruct (forallb (fun p : aid * option aval => f (fst p)) X) eqn:A;
+      destruct (forallb (fun p : aid * aval => f (fst p)) pkw) eqn:B; try reflexivity.
+    - symmetry. apply D1. reflexivity.
+    - apply D2. reflexivity.
+  Qed.
+
+  Definition hand_mstep (h : hinit) (acc : res st) (p : aid * option aval) : res st :=
+    match acc with
+    | Err e => Err e
+    | Ok s =>
+        let f := match assoc (fst p) (h_tr h) with Some f => f | None => FId end in
+        match snd p with
+        | Some v => match apply_fn f v with
+                    | Ok v' => set_attr M (fst p) (Some v') s
+                    | Err e => Err e end
+        | None => match f with
+                  | FId => set_attr M (fst p) None s
+                  | FConst v' => set_attr M (fst p) (Some v') s
+                  | _ => Err TypeErr
+                  end
+        end
+    end.
+
+  Definition hand_sstep (h : hinit) (acc : res (list (aid * aval))) (p : aid * aval)
+    : res (list (aid * aval)) :=
+    match acc with
+    | Err e => Err e
+    | Ok d =>
+        match apply_fn (match assoc (fst p) (h_tr h) with Some f => f | None => FId end) (snd p) with
+        | Ok v => assign ks (fst p) v d
+        | Err e => Err e
+        end
+    end.
+
+  Lemma hand_fold h L : forall s,
+    fold_left (hand_mstep h) (map (fun p => (fst p, Some (snd p))) L) (Ok s)
+    = lift (fold_left (hand_sstep h) L (Ok (s_dict s))) s.
+  Proof.
+    induction L as [|[a v] t IH]; intro s; [destruct s; reflexivity|].
+    cbn [map fold_left fst snd hand_mstep hand_sstep].
+    destruct (apply_fn (match assoc a (h_tr h) with Some f => f | None => FId end) v) as [v'|e].
+    - rewrite set_attr_assign. destruct (assign ks a v' (s_dict s)) as [d|e]; simpl.
+      + rewrite (IH (mkst d (s_post s) (s_hand s))). reflexivity.
+      + rewrite !fold_err by reflexivity. reflexivity.
+    - rewrite !fold_err by reflexivity. reflexivity.
+  Qed.
+
+  Definition hm_core (h : hinit) (c : cid) (vals : list (aid * option aval)) (s : st) : res st :=
+    match fold_left (hand_mstep h) vals (Ok s) with
+    | Err e => Err e
+    | Ok s' =>
+        Ok (mkst (assoc_set A_EXTRA
+                            (AList (map (fun p : aid * option aval =>
+                                           match snd p with Some v => v | None => ANone end) vals))
+                            (s_dict s'))
+                 (s_post s') (s_hand s' ++ [c]))
+    end.
+
+  Definition hs_core (h : hinit) (vals : list (aid * aval)) (d : list (aid * aval))
+    : res (list (aid * aval)) :=
+    match fold_left (hand_sstep h) vals (Ok d) with
+    | Err e => Err e
+    | Ok d' => Ok (assoc_set A_EXTRA (AList (map snd vals)) d')
+    end.
+
+  Lemma run_hinit_hand c h (X : kwargs) pkw s :
+    (forall a, assoc a X = option_map Some (assoc a pkw)) ->
+    run_hinit M c h X s
+    = match hand_call ks h pkw (s_dict s) with
+      | Ok d' => Ok (mkst d' (s_post s) (s_hand s ++ [c]))
+      | Err e => Err e end.
+  Proof.
+    intro R.
+    change (run_hinit M c h X s)
+      with (if negb (forallb (fun p : aid * option aval => has (fst p) (h_params h)) X) then Err TypeErr
+            else hm_core h c (map (fun p : aid * aval =>
+                                     (fst p, match assoc (fst p) X with
+                                             | Some v => v | None => Some (snd p) end)) (h_params h)) s).
+    change (hand_call ks h pkw (s_dict s))
+      with (if negb (forallb (fun p : aid * aval => has (fst p) (h_params h)) pkw) then Err TypeErr
+            else hs_core h (map (fun p : aid * aval =>
+                                   (fst p, match assoc (fst p) pkw with
+                                           | Some v => v | None => snd p end)) (h_params h)) (s_dict s)).
+    rewrite (forallb_same_names (fun a => has a (h_params h)) X pkw (has_assoc_rel X pkw R)).
+    destruct (negb (forallb (fun p : aid * aval => has (fst p) (h_params h)) pkw)); [reflexivity|].
+    set (L := map (fun p : aid * aval => (fst p, match assoc (fst p) pkw with Some v => v | None => snd p end))
+                  (h_params h)).
+    assert (EV : map (fun p : aid * aval => (fst p, match assoc (fst p) X with
+                                                    | Some v => v | None => Some (snd p) end)) (h_params h)
+                 = map (fun p : aid * aval => (fst p, Some (snd p))) L).
+    { unfold L. rewrite map_map. apply map_ext. intros [a v]. simpl. rewrite R.
+      destruct (assoc a pkw); reflexivity. }
+    rewrite EV. unfold hm_core, hs_core. rewrite hand_fold.
+    destruct (fold_left (hand_sstep h) L (Ok (s_dict s))) as [d|e]; [|reflexivity].
+    cbn [lift s_dict s_post s_hand]. rewrite map_map. cbn [snd]. reflexivity.
+  Qed.
+
+  Lemma call_parent_hand l1 pc l2 h pkw s :
+    ks = l1 ++ pc :: l2 -> k_hinit pc = Some h ->
+    call_parent_init (rch ks) M (rone pc (rch l2)) pkw s = run_hinit M (k_id pc) h pkw s.
+  Proof.
+    intros E NH. unfold call_parent_init. cbn [rc_mro rone first_some].
+    rewrite (find_cls_ks l1 pc l2 E). cbn [rc_init rone]. rewrite NH. reflexivity.
+  Qed.
+
+  Lemma owner_step_hand pc h d0 hc :
+    is_spec pc = true -> k_hinit pc = Some h ->
+    owner_step ks false kw1 (Ok (d0, hc)) pc
+    = match hand_call ks h
+              (flat_map (fun a => match value_of ks kw1 a with Some v => [(a, v)] | None => [] end)
+                        (filter (sel (k_id pc)) (managed ks))) d0 with
+      | Ok d' => Ok (d', hc ++ [k_id pc]) | Err e => Err e end.
+  Proof. intros S NH. unfold owner_step. rewrite S, NH. reflexivity. Qed.
+
+  Lemma assoc_values (f : aid -> option aval) L a :
+    assoc a (flat_map (fun x => match f x with Some v => [(x, v)] | None => [] end) L)
+    = if memb a L then f a else None.
+  Proof.
+    induction L as [|x t IH]; [reflexivity|]. cbn [flat_map]. rewrite assoc_app.
+    change (memb a (x :: t)) with ((a =? x) || memb a t).
+    destruct (a =? x) eqn:E.
+    - apply Nat.eqb_eq in E. subst x. simpl orb. destruct (f a) as [v|].
+      + simpl. rewrite Nat.eqb_refl. reflexivity.
+      + simpl. rewrite IH. destruct (memb a t); reflexivity.
+    - simpl orb. destruct (f x) as [v|].
+      + simpl. rewrite Nat.eqb_sym, E. exact IH.
+      + simpl. exact IH.
+  Qed.
+
+  Lemma parent_step_sim_hand l1 pc l2 d h kwm s :
+    ks = l1 ++ pc :: l2 -> k_deco pc = Some d -> k_hinit pc = Some h -> key_of (pc :: l2) = None ->
+    (forall r, In r (m_attrs M) -> sel (k_id pc) (r_name r) = true ->
+               kw_get (r_name r) kwm = assoc (r_name r) kw1) ->
+    exists kw',
+      parent_step cur (rch ks) M (Ok (kwm, s)) (k_id pc)
+      = match owner_step ks false kw1 (Ok (s_dict s, s_hand s)) pc with
+        | Ok (d, hc) => Ok (kw', mkst d (s_post s) hc)
+        | Err e => Err e end
+      /\ (forall b, psel (k_id pc) b = false -> assoc b kw' = assoc b kwm)
+      /\ content kw' = content kwm.
+  Proof.
+    intros E D NH KN HK. unfold parent_step. rewrite (find_cls_ks l1 pc l2 E).
+    cbn [q_plain_parent cur rc_meta rone]. rewrite D.
+    set (pm := boot pc d (rch l2)).
+    assert (C2 : chain (pc :: l2)) by (apply (chain_app_r l1); rewrite <- E; exact C).
+    assert (W2 : wfc (pc :: l2)) by (apply (wfc_app_r l1); rewrite <- E; exact W).
+    pose proof (InvO_chain _ C2 W2) as I2. unfold InvO in I2.
+    rewrite (nearest_meta_rch_spec pc d l2 D) in I2. fold pm in I2. simpl mattrs in I2.
+    destruct I2 as [K2' [_ [N2 _]]].
+    change (m_key pm = key_of (pc :: l2)) in K2'. rewrite KN in K2'.
+    change (map r_name (m_attrs pm) = managed (pc :: l2)) in N2.
+    set (X := flat_map (fun pr => pentry (k_id pc) kwm (r_name pr)) (m_attrs pm)).
+    set (kw' := fold_left (fun kw pr => kdel (k_id pc) kwm (r_name pr) kw) (m_attrs pm) kwm).
+    exists kw'.
+    destruct (kdel_fold (k_id pc) kwm (m_attrs pm) kwm) as [K1 K2]. fold kw' in K1, K2.
+    split; [|split; [exact K1 | exact K2]].
+    match goal with
+    | |- context [fold_left ?f (m_attrs pm) ?a] =>
+        assert (IF : fold_left f (m_attrs pm) a = Ok (X, kw'))
+    end.
+    { etransitivity;
+        [apply fold_left_ext with (g := inner_step (k_id pc)); intros [[? ?]|?] ?; reflexivity|].
+      apply (inner_fold (k_id pc) kwm (m_attrs pm) [] kwm).
+      + rewrite N2. unfold managed. apply NoDup_nodup_first.
+      + intros pr Hp. rewrite E. apply managed_suffix. rewrite <- N2. apply in_map. exact Hp.
+      + intros; reflexivity. }
+    rewrite IF. rewrite K2'.
+    rewrite (call_parent_hand l1 pc l2 h X s E NH).
+    rewrite (owner_step_hand pc h (s_dict s) (s_hand s) (is_spec_deco pc d D) NH).
+    rewrite (run_hinit_hand (k_id pc) h X
+               (flat_map (fun a => match value_of ks kw1 a with Some v => [(a, v)] | None => [] end)
+                         (filter (sel (k_id pc)) (managed ks))) s).
+    - destruct (hand_call ks h _ (s_dict s)); reflexivity.
+    - intro a. unfold X. rewrite assoc_pentries, (assoc_values (value_of ks kw1)).
+      destruct (memb a (managed ks)) eqn:Hm.
+      + apply memb_In in Hm. rewrite <- M_names in Hm. apply in_map_iff in Hm.
+        destruct Hm as [r [Fn Fi]]. subst a.
+        destruct (sel (k_id pc) (r_name r)) eqn:S.
+        * assert (Hf : memb (r_name r) (filter (sel (k_id pc)) (managed ks)) = true).
+          { apply memb_In. apply filter_In. split; [rewrite <- M_names; apply in_map; exact Fi | exact S]. }
+          rewrite Hf.
+          assert (Hn : memb (r_name r) (map r_name (m_attrs pm)) = true).
+          { apply memb_In. rewrite N2.
+            pose proof S as S'. unfold sel in S'. apply andb_prop in S'. destruct S' as [S1 _].
+            destruct (owner ks (r_name r)) as [o|] eqn:OO; [|discriminate]. simpl in S1.
+            apply Nat.eqb_eq in S1. subst o.
+            apply (managed_owned_suffix l1 pc l2); [rewrite <- E; exact C | | rewrite <- E; exact OO].
+            rewrite <- E, <- M_names. apply in_map. exact Fi. }
+          rewrite Hn. unfold pentry. rewrite (psel_sel (k_id pc) r Fi), S, (M_find r Fi).
+          rewrite <- (value_sim r kwm Fi (HK r Fi S)).
+          destruct (kw_get (r_name r) kwm) as [v|]; [simpl; rewrite Nat.eqb_refl; reflexivity|].
+          destruct (lookup_default (rch ks) r) as [dv|]; [simpl; rewrite Nat.eqb_refl; reflexivity | reflexivity].
+        * assert (Hf : memb (r_name r) (filter (sel (k_id pc)) (managed ks)) = false).
+          { apply memb_false. intro H. apply filter_In in H. destruct H as [_ H]. congruence. }
+          rewrite Hf. unfold pentry. rewrite (psel_sel (k_id pc) r Fi), S.
+          destruct (memb (r_name r) (map r_name (m_attrs pm))); reflexivity.
+      + assert (Hf : memb a (filter (sel (k_id pc)) (managed ks)) = false).
+        { apply memb_false. intro H. apply filter_In in H. destruct H as [H _].
+          apply (proj2 (memb_In _ _)) in H. congruence. }
+        rewrite Hf. unfold pentry, psel.
+        assert (F : find_attr a (m_attrs M) = None) by (apply M_find_managed; apply memb_false; exact Hm).
+        rewrite F. destruct (memb a (map r_name (m_attrs pm))); reflexivity.
+  Qed.
+
   (* ---- the whole parent loop *)
-  Definition in_ks (pc : cdesc) : Prop := exists l1 l2, ks = l1 ++ pc :: l2 /\ k_hinit pc = None.
+  Definition hand_ok (pc : cdesc) (l2 : list cdesc) : Prop :=
+    k_hinit pc = None \/ (is_spec pc = true /\ key_of (pc :: l2) = None).
+
+  Definition in_ks (pc : cdesc) : Prop := exists l1 l2, ks = l1 ++ pc :: l2 /\ hand_ok pc l2.
+
+  (* every class of l has a generated constructor, or is a spec class with a hand-written one
+     and no key in force *)
+  Fixpoint hand_guard (l : list cdesc) : Prop :=
+    match l with
+    | [] => True
+    | k :: t => hand_ok k t /\ hand_guard t
+    end.
+
+  Lemma hand_guard_split a pc b : hand_guard (a ++ pc :: b) -> hand_ok pc b.
+  Proof. induction a as [|x t IH]; simpl; intros [H1 H2]; [exact H1 | apply IH; exact H2]. Qed.
 
   Lemma sel_unique r p1 p2 : In r (m_attrs M) ->
     sel p1 (r_name r) = true -> sel p2 (r_name r) = true -> p1 = p2.
@@ -1856,9 +2096,23 @@ Section Sim.
     induction PL as [|pc t IH]; intros kwm s ND HI HK.
     - exists kwm. simpl. destruct s. repeat split; reflexivity.
     - inversion ND as [|? ? Hx NDt]; subst.
-      destruct (HI pc (or_introl eq_refl)) as [l1 [l2 [E NH]]].
-      destruct (parent_step_sim l1 pc l2 kwm s E NH) as [kwA [EA [KA CA]]].
+      destruct (HI pc (or_introl eq_refl)) as [l1 [l2 [E HO]]].
+      assert (HKpc : forall r, In r (m_attrs M) -> sel (k_id pc) (r_name r) = true ->
+                               kw_get (r_name r) kwm = assoc (r_name r) kw1).
       { intros r Hr S. apply (HK pc r); [left; reflexivity | exact Hr | exact S]. }
+      assert (PS : exists kw',
+                 parent_step cur (rch ks) M (Ok (kwm, s)) (k_id pc)
+                 = match owner_step ks false kw1 (Ok (s_dict s, s_hand s)) pc with
+                   | Ok (d, hc) => Ok (kw', mkst d (s_post s) hc)
+                   | Err e => Err e end
+                 /\ (forall b, psel (k_id pc) b = false -> assoc b kw' = assoc b kwm)
+                 /\ content kw' = content kwm).
+      { unfold hand_ok in HO. destruct (k_hinit pc) as [h|] eqn:NH.
+        - destruct HO as [HO|[HS HKN]]; [discriminate|].
+          unfold is_spec in HS. destruct (k_deco pc) as [d|] eqn:D; [|discriminate].
+          apply (parent_step_sim_hand l1 pc l2 d h kwm s E D NH HKN HKpc).
+        - apply (parent_step_sim l1 pc l2 kwm s E NH HKpc). }
+      destruct PS as [kwA [EA [KA CA]]].
       cbn [map fold_left]. rewrite EA.
       destruct (owner_step ks false kw1 (Ok (s_dict s, s_hand s)) pc) as [[d hc]|e] eqn:OS.
       + destruct (IH kwA (mkst d (s_post s) hc) NDt) as [kwB [EB [KB CB]]].
@@ -1937,7 +2191,7 @@ Section Sim.
   Proof. intro S. unfold owner_step. rewrite S. reflexivity. Qed.
 
   Lemma init_top_sim pre m t' d ph :
-    ks = pre ++ m :: t' -> k_deco m = Some d -> (forall c, In c ks -> k_hinit c = None) ->
+    ks = pre ++ m :: t' -> k_deco m = Some d -> hand_guard t' ->
     ph_ok ph ->
     init_top cur (rch ks) M (rone m (rch t')) (ph ++ wrap kw1) (mkst [] [] [])
     = match fold_left (owner_step ks false kw1) (rev t') (Ok ([], [])) with
@@ -1963,7 +2217,7 @@ Section Sim.
     { intros pc Hp. apply in_rev in Hp. apply in_split in Hp. destruct Hp as [a [b Hp]].
       exists (pre ++ m :: a), b. split.
       - rewrite E, Hp. rewrite <- app_assoc. reflexivity.
-      - apply NH. rewrite E, Hp. apply in_app_iff. right. right. apply in_app_iff. right. left. reflexivity. }
+      - apply (hand_guard_split a pc b). rewrite <- Hp. exact NH. }
     { intros pc r _ _ _. apply kw_get_wrap. exact PH. }
     rewrite EF. cbn [s_dict s_hand s_post].
     destruct (fold_left (owner_step ks false kw1) (rev t') (Ok ([], []))) as [[d0 hc]|e]; [|reflexivity].
@@ -2117,21 +2371,29 @@ Proof.
   apply find_attr_None in F. contradiction.
 Qed.
 
+(* constructors along the chain: plain classes define none, the constructor's class has the
+   generated one, its ancestors the generated one or a hand-written one with no key in force *)
+Definition ctor_guard (ks : list cdesc) : Prop :=
+  (forall c, In c ks -> is_spec c = false -> k_hinit c = None)
+  /\ match ms ks with [] => True | m :: t' => k_hinit m = None /\ hand_guard t' end.
+
 Theorem construct_chain ks pos kw :
-  chain ks -> wfc ks -> (forall c, In c ks -> k_hinit c = None) ->
+  chain ks -> wfc ks -> ctor_guard ks ->
   key_guard ks pos kw ->
   out_of (construct_in cur (rch ks) pos kw) = expected_init ks pos kw.
 Proof.
-  intros C W NH KG.
+  intros C W [NP NG] KG.
   destruct (meta_anc_split ks) as [pre [E P]].
   assert (P' : forall c, In c pre -> is_spec c = false /\ k_hinit c = None).
-  { intros c Hc. split; [apply P; exact Hc | apply NH; rewrite E; apply in_app_iff; left; exact Hc]. }
+  { intros c Hc. split; [apply P; exact Hc|].
+    apply NP; [rewrite E; apply in_app_iff; left; exact Hc | apply P; exact Hc]. }
+  unfold ms in NG.
   unfold construct_in, expected_init, ms.
   destruct (meta_anc ks) as [|m t'] eqn:MA.
   - rewrite app_nil_r in E. rewrite E. rewrite (first_init_none pre P'). reflexivity.
   - pose proof (meta_anc_head_spec ks m t' MA) as S.
     unfold is_spec in S. destruct (k_deco m) as [d|] eqn:D; [clear S|discriminate].
-    assert (NHm : k_hinit m = None) by (apply NH; rewrite E; apply in_app_iff; right; left; reflexivity).
+    destruct NG as [NHm NH].
     rewrite E at 1. rewrite (first_init_rch pre m t' d P' D NHm).
     cbn [rc_meta rone]. rewrite D. unfold self_meta.
     assert (HM : nearest_meta (rch ks) = Some (boot m d (rch t'))).
@@ -2355,14 +2617,43 @@ Qed.
 (* ------------------------------------------------------------------ main results *)
 Definition generated_only (ks : list cdesc) : Prop := forall k, In k ks -> k_hinit k = None.
 
-Theorem construct_single_inheritance ct c pos kw :
+Lemma hand_guard_generated l : (forall k, In k l -> k_hinit k = None) -> hand_guard l.
+Proof.
+  induction l as [|k t IH]; intro H; [exact I|]. split.
+  - left. apply H. left. reflexivity.
+  - apply IH. intros x Hx. apply H. right. exact Hx.
+Qed.
+
+Lemma generated_ctor_guard ks : generated_only ks -> ctor_guard ks.
+Proof.
+  intro G. split; [intros c Hc _; apply G; exact Hc|].
+  destruct (ms ks) as [|m t'] eqn:MS; [exact I|].
+  assert (SUB : forall x, In x (m :: t') -> In x ks).
+  { intros x Hx. unfold ms in MS. destruct (meta_anc_split ks) as [pre [E _]]. rewrite E, MS.
+    apply in_app_iff. right. exact Hx. }
+  split; [apply G; apply SUB; left; reflexivity|].
+  apply hand_guard_generated. intros k Hk. apply G. apply SUB. right. exact Hk.
+Qed.
+
+(* hand-written constructors of the documented shape on proper ancestors of the constructor's
+   class, provided no key is in force where they are *)
+Theorem construct_single_inheritance_hand ct c pos kw :
   wf_table ct -> In c (map k_id ct) ->
-  wfc (anc ct c) -> generated_only (anc ct c) -> key_guard (anc ct c) pos kw ->
+  wfc (anc ct c) -> ctor_guard (anc ct c) -> key_guard (anc ct c) pos kw ->
   out_of (construct cur ct c pos kw) = expected ct c pos kw.
 Proof.
   intros WT Hc W G KG. unfold construct, expected.
   destruct (tab_inv_all ct WT c Hc) as [_ CH _ _ _ RA _].
   rewrite RA, (rchain_rch _ CH W). apply construct_chain; assumption.
+Qed.
+
+Theorem construct_single_inheritance ct c pos kw :
+  wf_table ct -> In c (map k_id ct) ->
+  wfc (anc ct c) -> generated_only (anc ct c) -> key_guard (anc ct c) pos kw ->
+  out_of (construct cur ct c pos kw) = expected ct c pos kw.
+Proof.
+  intros WT Hc W G KG. apply construct_single_inheritance_hand; try assumption.
+  apply generated_ctor_guard. exact G.
 Qed.
 
 Lemma expected_post ks pos kw o :
@@ -2479,9 +2770,43 @@ Proof.
   - right. right. apply eqb_prop. exact H2.
 Qed.
 
-(* all hypotheses of construct_single_inheritance, as one computable test *)
+Definition hand_ok_b (k : cdesc) (t : list cdesc) : bool :=
+  match k_hinit k with
+  | None => true
+  | Some _ => is_spec k && negb (opt_is (key_of (k :: t)))
+  end.
+
+Fixpoint hand_guard_b (l : list cdesc) : bool :=
+  match l with [] => true | k :: t => hand_ok_b k t && hand_guard_b t end.
+
+Lemma hand_guard_b_sound l : hand_guard_b l = true -> hand_guard l.
+Proof.
+  induction l as [|k t IH]; [intros _; exact I|]. simpl. intro H. apply andb_prop in H.
+  destruct H as [H1 H2]. split; [|apply IH; exact H2].
+  unfold hand_ok_b in H1. unfold hand_ok. destruct (k_hinit k); [|left; reflexivity].
+  right. apply andb_prop in H1. destruct H1 as [H1 H3]. split; [exact H1|].
+  destruct (key_of (k :: t)); [discriminate | reflexivity].
+Qed.
+
+Definition ctor_guard_b (ks : list cdesc) : bool :=
+  forallb (fun c => is_spec c || match k_hinit c with None => true | Some _ => false end) ks
+  && match ms ks with
+     | [] => true
+     | m :: t' => match k_hinit m with None => hand_guard_b t' | Some _ => false end
+     end.
+
+Lemma ctor_guard_b_sound ks : ctor_guard_b ks = true -> ctor_guard ks.
+Proof.
+  unfold ctor_guard_b, ctor_guard. intro H. apply andb_prop in H. destruct H as [H1 H2]. split.
+  - intros c Hc S. rewrite forallb_forall in H1. specialize (H1 c Hc). rewrite S in H1. simpl in H1.
+    destruct (k_hinit c); [discriminate | reflexivity].
+  - destruct (ms ks) as [|m t']; [exact I|]. destruct (k_hinit m); [discriminate|].
+    split; [reflexivity | apply hand_guard_b_sound; exact H2].
+Qed.
+
+(* all hypotheses of construct_single_inheritance_hand, as one computable test *)
 Definition in_scope (ct : list cdesc) (c : cid) (pos : option aval) (kw : list (aid * aval)) : bool :=
-  wf_table_b ct && memb c (map k_id ct) && wfc_b (anc ct c) && generated_b (anc ct c)
+  wf_table_b ct && memb c (map k_id ct) && wfc_b (anc ct c) && ctor_guard_b (anc ct c)
   && key_guard_b (anc ct c) pos kw.
 
 Theorem construct_in_scope ct c pos kw :
@@ -2491,11 +2816,11 @@ Proof.
   unfold in_scope. intro H.
   apply andb_prop in H. destruct H as [H H5]. apply andb_prop in H. destruct H as [H H4].
   apply andb_prop in H. destruct H as [H H3]. apply andb_prop in H. destruct H as [H1 H2].
-  apply construct_single_inheritance.
+  apply construct_single_inheritance_hand.
   - apply wf_table_b_sound. exact H1.
   - apply memb_In. exact H2.
   - apply wfc_b_sound. exact H3.
-  - apply generated_b_sound. exact H4.
+  - apply ctor_guard_b_sound. exact H4.
   - apply key_guard_b_sound. exact H5.
 Qed.
 
